@@ -160,7 +160,7 @@ def _struct_case(arg):
     rg = rgrids()[rname]
     n = rg.size
     centre = np.array(CENTRES[ci]) + (lattice.jitter(seed, "c", 0.0, 0.2) if ci else 0.0)
-    rotate = {0: 0, 1: 1, 2: 37, 3: 2**32 - n - 1}[rotate_code]
+    rotate = {0: 0, 1: 1, 2: 37, 3: 2**32 - n - 1, 4: np.int64(37), 5: np.int32(1)}[rotate_code]
     case = {"route": "structure", "rgrid": rname, "method": method, "kind": kind, "seq": list(seq), "centre": ci,
             "rotate_code": rotate_code}
     tag = "structure"
@@ -185,6 +185,14 @@ def _struct_case(arg):
     res.count(3)
     if not (np.array_equal(g.points, g2.points) and np.array_equal(g.weights, g2.weights)):
         res.violation(f"{tag}:not-reproducible-from-seed", f"two builds with rotate={rotate} differ", case)
+    if rotate_code >= 4:
+        # a NumPy integer seed is the same seed as the Python integer of equal value
+        with warnings.catch_warnings():
+            warnings.simplefilter("ignore")
+            gi = AtomGrid(rg, center=centre, rotate=int(rotate), method=method, **kw)
+        res.count()
+        if not (np.array_equal(g.points, gi.points) and np.array_equal(g.weights, gi.weights)):
+            res.violation(f"{tag}:numpy-integer-seed-differs", f"rotate={rotate!r} ({type(rotate).__name__}) and rotate={int(rotate)} differ", case)
     if _gt(np.max(np.abs((g.points - centre) - g0.points)), 4e-16 * (1 + np.max(np.abs(centre))) * 4) or not np.array_equal(g.weights, g0.weights):
         res.violation(f"{tag}:centre-does-not-only-translate", "moving the centre changes relative points or weights", case)
     if rotate:
@@ -243,13 +251,17 @@ def _struct_case(arg):
 
 
 def _pruned_case(arg):
-    rname, method, kind, bounds, sectors, seed = arg
+    rname, method, kind, bounds, sectors, seed = arg[:6]
+    ci, rotate = arg[6:] if len(arg) > 6 else (0, 0)
     from grid.atomgrid import AtomGrid
 
     res = WorkerResult(section="from_pruned")
     rg = rgrids()[rname]
     radius = 1.3
-    case = {"route": "pruned", "rgrid": rname, "method": method, "kind": kind, "bounds": list(bounds), "sectors": list(sectors)}
+    case = {"route": "pruned", "rgrid": rname, "method": method, "kind": kind, "bounds": list(bounds), "sectors": list(sectors),
+            "centre": ci, "rotate": int(rotate)}
+    centre = np.array(CENTRES[ci])
+    opt = {} if (ci, rotate) == (0, 0) else {"center": centre.copy(), "rotate": rotate}
     pairs = listing(method)
     fn = oracle_by_degree if kind == "d" else oracle_by_size
     sector_deg = [fn(pairs, int(q))[0] for q in sectors]
@@ -259,9 +271,9 @@ def _pruned_case(arg):
         with warnings.catch_warnings():
             warnings.simplefilter("ignore")
             if kind == "d":
-                g = AtomGrid.from_pruned(rg, radius, r_sectors=list(bounds), d_sectors=list(sectors), method=method)
+                g = AtomGrid.from_pruned(rg, radius, r_sectors=list(bounds), d_sectors=list(sectors), method=method, **opt)
             else:
-                g = AtomGrid.from_pruned(rg, radius, r_sectors=list(bounds), d_sectors=None, s_sectors=list(sectors), method=method)
+                g = AtomGrid.from_pruned(rg, radius, r_sectors=list(bounds), d_sectors=None, s_sectors=list(sectors), method=method, **opt)
     except Exception as exc:
         res.violation(f"pruned:raised:{type(exc).__name__}", f"from_pruned raised {exc}", case)
         return res.as_dict()
@@ -277,7 +289,74 @@ def _pruned_case(arg):
         res.violation("pruned:wrong-sector-degree", f"from_pruned degrees {got}, allowed per shell {[sorted(a) for a in exp]} "
                       f"(nodes {np.round(rg.points, 4).tolist()}, boundaries {b.tolist()})", case)
         return res.as_dict()
-    check_shells(res, "pruned", case, g, rg, got, method, np.zeros(3), 0)
+    check_shells(res, "pruned", case, g, rg, got, method, centre, rotate)
+    # the classmethod is the plain constructor with the per-shell degrees, same centre, same seed
+    with warnings.catch_warnings():
+        warnings.simplefilter("ignore")
+        hand = AtomGrid(rg, degrees=list(got), center=centre.copy(), rotate=rotate, method=method)
+        # array-valued arguments are documented alternatives of the lists
+        if kind == "d":
+            ga = AtomGrid.from_pruned(rg, radius, r_sectors=np.array(bounds), d_sectors=np.array(sectors), method=method, **opt)
+        else:
+            ga = AtomGrid.from_pruned(rg, radius, r_sectors=np.array(bounds), d_sectors=None, s_sectors=np.array(sectors), method=method, **opt)
+    res.count(2)
+    if g.points.shape != hand.points.shape or _gt(np.max(np.abs(g.points - hand.points)), 1e-14 * (1 + np.max(np.abs(hand.points)))) \
+            or _gt(np.max(np.abs(g.weights - hand.weights)), 1e-14 * np.max(np.abs(hand.weights))):
+        res.violation("pruned:differs-from-plain-constructor", "from_pruned differs from AtomGrid(rgrid, degrees=<its degrees>, same centre, "
+                      "same seed, same method)", case)
+    if ga.points.shape != g.points.shape or not (np.array_equal(ga.points, g.points) and np.array_equal(ga.weights, g.weights)):
+        res.violation("pruned:array-arguments-differ-from-lists", "from_pruned with ndarray sectors differs from the list call", case)
+    return res.as_dict()
+
+
+def _forms_case(arg):
+    """Documented argument forms of the plain constructor give the grid of the full explicit list."""
+    rname, method, seed = arg
+    from grid.atomgrid import AtomGrid
+
+    res = WorkerResult(section="argument-forms")
+    rg = rgrids()[rname]
+    n = rg.size
+    alpha = DEG_ALPHABET[method]
+    pairs = listing(method)
+    seq = [alpha[k % 3] for k in range(n)]
+    sizes = [oracle_by_degree(pairs, d)[1] - (k % 2) for k, d in enumerate(seq)]
+    centre = np.array(CENTRES[1])
+
+    def build(**kw):
+        with warnings.catch_warnings():
+            warnings.simplefilter("ignore")
+            return AtomGrid(rg, center=centre.copy(), rotate=37, method=method, **kw)
+
+    forms = [
+        ("single-degree-broadcast", dict(degrees=[alpha[1]]), dict(degrees=[alpha[1]] * n)),
+        ("single-degree-array-broadcast", dict(degrees=np.array([alpha[1]])), dict(degrees=[alpha[1]] * n)),
+        ("degrees-as-array", dict(degrees=np.array(seq)), dict(degrees=list(seq))),
+        ("degrees-as-int32-array", dict(degrees=np.array(seq, dtype=np.int32)), dict(degrees=list(seq))),
+        ("sizes-as-array", dict(degrees=None, sizes=np.array(sizes)), dict(degrees=None, sizes=list(sizes))),
+        ("single-size-broadcast", dict(degrees=None, sizes=[sizes[0]]), dict(degrees=None, sizes=[sizes[0]] * n)),
+        ("sizes-win-over-degrees", dict(degrees=[alpha[0]] * n, sizes=list(sizes)), dict(degrees=None, sizes=list(sizes))),
+    ]
+    for name, a, b in forms:
+        case = {"route": "forms", "rgrid": rname, "method": method, "form": name}
+        res.count()
+        try:
+            ga, gb = build(**a), build(**b)
+        except Exception as exc:
+            res.violation(f"forms:{name}:raised:{type(exc).__name__}", f"AtomGrid({a}) raised {exc}", case)
+            continue
+        res.nontrivial()
+        if ga.points.shape != gb.points.shape or not (np.array_equal(ga.points, gb.points) and np.array_equal(ga.weights, gb.weights)
+                                                      and np.array_equal(ga.indices, gb.indices)):
+            res.violation(f"forms:{name}:differs-from-explicit-list", f"AtomGrid({a}) differs from AtomGrid({b})", case)
+    if method == "lebedev":
+        case = {"route": "forms", "rgrid": rname, "method": method, "form": "default-degrees"}
+        res.count()
+        with warnings.catch_warnings():
+            warnings.simplefilter("ignore")
+            g = AtomGrid(rg)
+        d50 = oracle_by_degree(pairs, 50)[0]
+        check_shells(res, "forms:default-degrees", case, g, rg, [d50] * n, "lebedev", np.zeros(3), 0)
     return res.as_dict()
 
 
@@ -357,8 +436,57 @@ def _preset_case(arg):
         elif wrong:
             res.violation(f"preset:{preset}:shell-not-smallest-grid-not-below",
                           f"from_preset({z}, {preset!r}): shell {wrong[0]} has {sizes[wrong[0]]} points, expected {exact[wrong[0]]}", c2)
-        if bname != "default-rgrid" and z % 9 == 1:
+        if z % 9 == 1 or (bname == "default-rgrid" and z % 4 == 1):
             check_shells(res, f"preset:{preset}", c2, g, rgu, [int(d) for d in g.degrees], "lebedev", np.zeros(3), 0)
+    # the other arguments of the classmethod (centre, seed, method) reach the grid: for a few elements per preset
+    if z % 6 == 1 or z in (8, 17):
+        bname, rg = builds[0]
+        centre = np.array(CENTRES[1])
+        for method in ("lebedev", "spherical", "maxdet", "ahrens_beylkin"):
+            mpairs = listing(method)
+            top = max(p[1] for p in mpairs)
+            c2 = dict(case, rgrid=bname, method=method, centre=1, rotate=37)
+            res.count()
+            if int(np.max(npt)) > top:
+                # the method has no grid that large: refusing is the documented answer
+                try:
+                    with warnings.catch_warnings():
+                        warnings.simplefilter("ignore")
+                        AtomGrid.from_preset(int(z), preset, rg, center=centre.copy(), rotate=37, method=method)
+                except Exception:
+                    res.inadm("preset size above the method's largest grid")
+                    continue
+                res.violation(f"preset:{preset}:size-above-maximum-accepted", f"from_preset({z}, {preset!r}, method={method}) "
+                              f"built a grid although a sector asks for {int(np.max(npt))} > {top} points", c2)
+                continue
+            try:
+                with warnings.catch_warnings():
+                    warnings.simplefilter("ignore")
+                    g = AtomGrid.from_preset(int(z), preset, rg, center=centre.copy(), rotate=37, method=method)
+                    g0 = AtomGrid.from_preset(int(z), preset, rg, method=method)
+            except Exception as exc:
+                if shell_counts and len(rad) != len(npt):
+                    continue          # the recorded data inconsistency, reported above
+                res.violation(f"preset:{preset}:options:raised:{type(exc).__name__}", f"from_preset({z}, {preset!r}, center, rotate=37, "
+                              f"method={method}) raised {exc}", c2)
+                continue
+            sizes = np.diff(g.indices)
+            if shell_counts:
+                m = min(len(npt), len(rad))
+                allowed = [{int(v)} for v in np.repeat(npt[:m], rad[:m])]
+            else:
+                allowed = [{int(npt[int(np.sum(r > rad))]), int(npt[int(np.sum(r >= rad))])} for r in g.rgrid.points]
+            res.nontrivial()
+            if len(sizes) != len(allowed) or any(int(sz) not in {oracle_by_size(mpairs, v)[1] for v in a} for sz, a in zip(sizes, allowed)):
+                res.violation(f"preset:{preset}:method:shell-not-smallest-grid-not-below",
+                              f"from_preset({z}, {preset!r}, method={method}): shell sizes {sizes.tolist()[:8]}... do not follow the "
+                              f"method's table", c2)
+                continue
+            check_shells(res, f"preset:{preset}:options", c2, g, g.rgrid, [int(d) for d in g.degrees], method, centre, 37)
+            # rotation and centre change nothing but orientation and position
+            if not np.array_equal(g.weights, g0.weights) or not np.array_equal(g.indices, g0.indices):
+                res.violation(f"preset:{preset}:options:weights-or-shells-depend-on-centre-or-seed",
+                              f"from_preset({z}, {preset!r}, method={method}): weights or index table change with centre / seed", c2)
     if z in (1, 8):
         res.sample(case)
     return res.as_dict()
@@ -376,7 +504,7 @@ def run(ctx):
                 seqs = [tuple(v) for v in lattice.deviations([alpha] * n, 2)]
             for k, seq in enumerate(seqs):
                 # centre / rotation alphabet: complete for the first sequences, deviation <= 1 otherwise
-                combos = list(itertools.product((0, 1), (0, 1, 2, 3))) if (k < 4 or ctx.thorough and k % 5 == 0) else [(0, 0), (1, 2), (k % 2, (k % 3) + 1)]
+                combos = list(itertools.product((0, 1), (0, 1, 2, 3, 4, 5))) if (k < 4 or ctx.thorough and k % 5 == 0) else [(0, 0), (1, 2), (k % 2, (k % 3) + 1)]
                 for ci, rc in combos:
                     jobs.append(("s", (rname, method, "degrees", seq, ci, rc, ctx.seed)))
             for seq in seqs[:: max(1, len(seqs) // 12)]:
@@ -393,6 +521,11 @@ def run(ctx):
                     for kind in ("d", "s"):
                         sec = alpha[: nb + 1] if kind == "d" else tuple(oracle_by_degree(pairs, d)[1] - 1 for d in alpha[: nb + 1])
                         jobs.append(("p", (rname, method, kind, bounds, sec, ctx.seed)))
+                        if nb == 2 or ctx.thorough:
+                            jobs.append(("p", (rname, method, kind, bounds, sec, ctx.seed, 1, 37)))
+    for rname in rg:
+        for method in DEG_ALPHABET:
+            jobs.append(("f", (rname, method, ctx.seed)))
     # presets: complete
     n_pre = 0
     for preset in PRESETS:
@@ -411,7 +544,7 @@ def run(ctx):
 
 def _dispatch(job):
     kind, arg = job
-    return {"s": _struct_case, "p": _pruned_case, "r": _preset_case}[kind](arg)
+    return {"s": _struct_case, "p": _pruned_case, "r": _preset_case, "f": _forms_case}[kind](arg)
 
 
 def replay(ctx, case):
@@ -419,7 +552,10 @@ def replay(ctx, case):
     if r == "structure":
         ctx.merge(_struct_case((case["rgrid"], case["method"], case["kind"], tuple(case["seq"]), case["centre"],
                                 case["rotate_code"], ctx.seed)))
+    elif r == "forms":
+        ctx.merge(_forms_case((case["rgrid"], case["method"], ctx.seed)))
     elif r == "pruned":
-        ctx.merge(_pruned_case((case["rgrid"], case["method"], case["kind"], tuple(case["bounds"]), tuple(case["sectors"]), ctx.seed)))
+        ctx.merge(_pruned_case((case["rgrid"], case["method"], case["kind"], tuple(case["bounds"]), tuple(case["sectors"]), ctx.seed,
+                                case.get("centre", 0), case.get("rotate", 0))))
     else:
         ctx.merge(_preset_case((case["preset"], case["z"], ctx.seed)))
